@@ -65,26 +65,44 @@ def determinism(a, seed):
 
 def mutants(a, seed):
     import glob
+    from concurrent.futures import ThreadPoolExecutor
     pats = sorted(glob.glob(os.path.join(HERE, 'selftest', 'mutants', '*.patch')) +
                   glob.glob(os.path.join(HERE, 'seeded', '*', 'patch.diff')))
-    bad = 0
-    rows = []
+    jobs = []
     for p in pats:
         if p.endswith('patch.diff'):
             meta = json.load(open(os.path.join(os.path.dirname(p), 'meta.json')))
             pids = meta.get('caught_by') or [meta['property']]
-            name = os.path.basename(os.path.dirname(p))
+            name = 'seeded/' + os.path.basename(os.path.dirname(p))
+            if meta.get('neutralised_by'):
+                continue
         else:
             name = os.path.basename(p)[:-6]
             pids = [name.split('-')[0]]
-        if getattr(a, 'only', None) and a.only not in pids and a.only != name:
+        if getattr(a, 'only', None) and a.only not in pids and a.only not in name:
             continue
         for pid in pids:
-            r = subprocess.run([os.path.join(HERE, 'tools', 'with_patch.sh'), p, os.path.join(HERE, 'check'), pid,
-                                '--tier', a.tier, '--no-evidence'], capture_output=True, text=True, timeout=7200)
-            caught = r.returncode == 1 and 'VIOLATION property=%s' % pid in r.stdout
-            rows.append((name, pid, 'caught' if caught else 'MISSED (exit %d)' % r.returncode))
-            print('%-28s %s %s' % (name, pid, rows[-1][2]))
+            jobs.append((name, pid, p))
+
+    def run(job):
+        name, pid, p = job
+        env = dict(os.environ)
+        env['DFSIM_WORKERS'] = env.get('DFSIM_WORKERS', '8')
+        r = subprocess.run([os.path.join(HERE, 'tools', 'with_patch.sh'), p, os.path.join(HERE, 'check'), pid,
+                            '--tier', a.tier, '--no-evidence', '--no-shrink'], capture_output=True, text=True, timeout=7200, env=env)
+        caught = r.returncode == 1 and 'VIOLATION property=%s' % pid in r.stdout
+        first = ''
+        for ln in r.stdout.splitlines():
+            if ln.strip().startswith('clause='):
+                first = ln.strip()[:160]
+                break
+        return name, pid, caught, r.returncode, first
+    bad = 0
+    rows = []
+    with ThreadPoolExecutor(max_workers=int(os.environ.get('DFSIM_MUTANT_JOBS', '3'))) as ex:
+        for name, pid, caught, rc, first in ex.map(run, jobs):
+            rows.append((name, pid, caught))
+            print('%-44s %s %s  %s' % (name, pid, 'caught' if caught else 'MISSED (exit %d)' % rc, first))
             sys.stdout.flush()
             if not caught:
                 bad += 1
